@@ -103,44 +103,8 @@ def run(rep):
               '(ro.ro(self))', construct='ro-source', node=sb)
 
     # ---- R06.3 -------------------------------------------------------------
-    f = find_def(mod, 'AdapterRegistry._setBases')
-    site = 'AdapterRegistry._setBases'
-    old = resolve_local(f, ast.Name(id='old', ctx=ast.Load()))
-    rep.check('R06.3', site,
-              match("self.__dict__.get('__bases__', ())", old) is not None,
-              'old bases = %s' % norm_src(old), construct='old', node=f)
-    def link_loop(src, other, call):
-        for lp in walk_local(f):
-            if not isinstance(lp, ast.For) or not isinstance(lp.target, ast.Name):
-                continue
-            it, d = iter_polarity(lp.iter)
-            if not (isinstance(it, ast.Name) and it.id == src):
-                continue
-            v = lp.target.id
-            for c, e in find_all(lp, '%s.%s(self)' % (v, call)):
-                g = shared.stmt_of(c).parent
-                if isinstance(g, ast.If) and \
-                        match('%s not in %s' % (v, other), g.test) is not None \
-                        and shared.stmt_of(c) in g.body:
-                    exits = [n for n in walk_local(lp) if isinstance(
-                        n, (ast.Break, ast.Return, ast.Continue))]
-                    return not exits, lp
-                if g is lp:
-                    return True, lp       # unconditional (re)link is fine
-        return False, None
-    ok1, l1 = link_loop('old', 'bases', '_removeSubregistry')
-    ok2, l2 = link_loop('bases', 'old', '_addSubregistry')
-    rep.check('R06.3', site, ok1,
-              'unlinks from every old base that is not among the new bases',
-              construct='unlink', node=f)
-    rep.check('R06.3', site, ok2,
-              'links to every new base that was not among the old (direct) bases',
-              construct='link', node=f)
-    cfg = cfg_of(f)
-    rep.check('R06.3', site,
-              cfg.must_pass_after(cfg.entry, pred_of('super()._setBases(bases)')),
-              'runs the base _setBases(bases) on every path', construct='super',
-              node=f)
+    from . import specsem
+    specsem.setbases_links(rep, mod, 'R06.3')
     a = find_def(mod, 'AdapterRegistry._addSubregistry')
     p = shared.params(a)[1]
     rep.check('R06.3', 'AdapterRegistry._addSubregistry',
@@ -242,12 +206,7 @@ def run(rep):
               'through the property', construct='init', node=init)
 
     # ---- R06.5 (PY; the C twin is checked in cside) ------------------------
-    vch = find_def(mod, 'VerifyingBase.changed')
-    a = find_all(vch, 'self._verify_ro = self._registry.ro[1:]', 'exec')
-    b = find_all(vch, 'self._verify_generations = [$r._generation for $r in self._verify_ro]', 'exec')
-    rep.check('R06.5', 'VerifyingBase.changed', bool(a) and bool(b),
-              '_verify_ro = registry.ro[1:] (all base registries, none skipped) '
-              'and generations of exactly those', construct='snapshot', node=vch)
+    specsem.verifying_py(rep, mod, 'R06.5')
 
     # ---- R06.6 -------------------------------------------------------------
     from .C05 import inv1
